@@ -13,6 +13,7 @@ package local
 
 import (
 	"encoding/json"
+	"sort"
 	"testing"
 
 	"github.com/hashicorp/consul/agent/netutil"
@@ -71,9 +72,10 @@ func verifC16GenSvc(t *rapid.T, k string) verifC16Op {
 	return op
 }
 
-func verifC16GenOp(t *rapid.T) verifC16Op {
-	switch w := rapid.IntRange(0, 99).Draw(t, "opclass"); {
-	case w < 18: // add / re-register a service with its checks
+// verifC16GenLocal draws one local op.
+func verifC16GenLocal(t *rapid.T) verifC16Op {
+	switch w := rapid.IntRange(0, 99).Draw(t, "local"); {
+	case w < 34: // add / re-register a service with its checks
 		op := verifC16GenSvc(t, "add-svc")
 		if rapid.IntRange(0, 3).Draw(t, "hasTok") == 0 {
 			op.Tok = "t1"
@@ -91,61 +93,83 @@ func verifC16GenOp(t *rapid.T) verifC16Op {
 		}
 		op.Replace = rapid.Bool().Draw(t, "replace")
 		return op
-	case w < 26:
+	case w < 48:
 		return verifC16Op{K: "rm-svc", ID: rapid.SampledFrom(verifC16SvcIDs).Draw(t, "sid")}
-	case w < 36:
+	case w < 64:
 		cd := verifC16GenChk(t, true)
 		return verifC16Op{K: "add-chk", Chk: &cd}
-	case w < 42:
+	case w < 74:
 		return verifC16Op{K: "rm-chk", Chk: &verifC16Chk{ID: rapid.SampledFrom(verifC16ChkIDs).Draw(t, "cid")}}
-	case w < 52:
+	case w < 86:
 		return verifC16Op{K: "upd-chk", Chk: &verifC16Chk{ID: rapid.SampledFrom(verifC16ChkIDs).Draw(t, "cid"),
 			Status: rapid.SampledFrom(verifC16Statuses).Draw(t, "status"), Output: rapid.SampledFrom(verifC16Outputs).Draw(t, "output")}}
-	case w < 55:
+	case w < 94: // output-only update (Status "" = keep the current status): what CheckUpdateInterval defers
+		return verifC16Op{K: "upd-chk", Chk: &verifC16Chk{ID: rapid.SampledFrom(verifC16ChkIDs).Draw(t, "cid"),
+			Output: rapid.SampledFrom(verifC16Outputs).Draw(t, "output")}}
+	case w < 98:
 		return verifC16Op{K: "meta", Meta: rapid.SampledFrom([]string{"x", "y"}).Draw(t, "nodemeta")}
-	case w < 56:
-		return verifC16Op{K: "discard", Discard: rapid.Bool().Draw(t, "discard")}
-	// ---- drift
-	case w < 61:
-		return verifC16GenSvc(t, "d-svc")
-	case w < 64:
-		return verifC16Op{K: "d-tags", ID: rapid.SampledFrom(verifC16SvcIDs).Draw(t, "sid"), Tags: rapid.SampledFrom(verifC16TagSets).Draw(t, "tags")}
-	case w < 66:
-		return verifC16Op{K: "d-taddr", ID: rapid.SampledFrom(verifC16SvcIDs).Draw(t, "sid"), Port: rapid.SampledFrom([]int{1, 2}).Draw(t, "port")}
-	case w < 69:
-		return verifC16Op{K: "d-rm-svc", ID: rapid.SampledFrom(verifC16SvcIDs).Draw(t, "sid")}
-	case w < 73:
-		cd := verifC16GenChk(t, true)
-		cd.Tok = ""
-		return verifC16Op{K: "d-chk", Chk: &cd}
-	case w < 75:
-		return verifC16Op{K: "d-rm-chk", Chk: &verifC16Chk{ID: rapid.SampledFrom(verifC16ChkIDs).Draw(t, "cid")}}
-	case w < 76:
-		return verifC16Op{K: "d-node-meta", Meta: rapid.SampledFrom([]string{"p", "q"}).Draw(t, "nodemeta")}
-	case w < 77:
-		return verifC16Op{K: "d-rm-node"}
-	case w < 78:
-		return verifC16Op{K: "d-consul"}
-	case w < 79:
-		return verifC16Op{K: "d-serf", Chk: &verifC16Chk{ID: "serfHealth", Status: rapid.SampledFrom(verifC16Statuses).Draw(t, "status")}}
-	// ---- syncs
-	case w < 90:
-		return verifC16Op{K: "sync-changes"}
 	default:
-		return verifC16Op{K: "sync-full"}
+		return verifC16Op{K: "discard", Discard: rapid.Bool().Draw(t, "discard")}
 	}
 }
 
-func verifC16GenScenario(t *rapid.T, maxOps int) (verifC16Op, []verifC16Op) {
+// verifC16GenDrift draws one drift op.
+func verifC16GenDrift(t *rapid.T) verifC16Op {
+	switch w := rapid.IntRange(0, 99).Draw(t, "drift"); {
+	case w < 20:
+		return verifC16GenSvc(t, "d-svc")
+	case w < 32:
+		return verifC16Op{K: "d-tags", ID: rapid.SampledFrom(verifC16SvcIDs).Draw(t, "sid"), Tags: rapid.SampledFrom(verifC16TagSets).Draw(t, "tags")}
+	case w < 40:
+		return verifC16Op{K: "d-taddr", ID: rapid.SampledFrom(verifC16SvcIDs).Draw(t, "sid"), Port: rapid.SampledFrom([]int{1, 2}).Draw(t, "port")}
+	case w < 54:
+		return verifC16Op{K: "d-rm-svc", ID: rapid.SampledFrom(verifC16SvcIDs).Draw(t, "sid")}
+	case w < 70:
+		cd := verifC16GenChk(t, true)
+		cd.Tok = ""
+		return verifC16Op{K: "d-chk", Chk: &cd}
+	case w < 82:
+		return verifC16Op{K: "d-rm-chk", Chk: &verifC16Chk{ID: rapid.SampledFrom(verifC16ChkIDs).Draw(t, "cid")}}
+	case w < 87:
+		return verifC16Op{K: "d-node-meta", Meta: rapid.SampledFrom([]string{"p", "q"}).Draw(t, "nodemeta")}
+	case w < 92:
+		return verifC16Op{K: "d-rm-node"}
+	case w < 96:
+		return verifC16Op{K: "d-consul"}
+	default:
+		return verifC16Op{K: "d-serf", Chk: &verifC16Chk{ID: "serfHealth", Status: rapid.SampledFrom(verifC16Statuses).Draw(t, "status")}}
+	}
+}
+
+// verifC16GenScenario: rounds of (a few local / drift ops, then a sync call), the way an agent lives: things change,
+// then a partial or a full sync runs. maxRounds bounds the number of sync ops.
+func verifC16GenScenario(t *rapid.T, maxRounds int) (verifC16Op, []verifC16Op) {
 	cfg := verifC16Op{K: "cfg",
 		Defer:   rapid.IntRange(0, 2).Draw(t, "defer") == 0,
 		Wire:    rapid.Bool().Draw(t, "wire"),
 		Discard: rapid.IntRange(0, 9).Draw(t, "discard") == 0,
 	}
-	n := rapid.IntRange(3, maxOps).Draw(t, "nops")
-	ops := make([]verifC16Op, 0, n)
+	rounds := rapid.IntRange(1, maxRounds).Draw(t, "rounds")
+	var ops []verifC16Op
+	for r := 0; r < rounds; r++ {
+		n := rapid.IntRange(1, 4).Draw(t, "nops")
+		for i := 0; i < n; i++ {
+			if rapid.IntRange(0, 9).Draw(t, "isDrift") < 3 {
+				ops = append(ops, verifC16GenDrift(t))
+			} else {
+				ops = append(ops, verifC16GenLocal(t))
+			}
+		}
+		if rapid.IntRange(0, 9).Draw(t, "fullSync") < 4 {
+			ops = append(ops, verifC16Op{K: "sync-full"})
+		} else {
+			ops = append(ops, verifC16Op{K: "sync-changes"})
+		}
+	}
+	// sometimes the scenario ends with un-synced changes (only the closing full sync sees them)
+	n := rapid.IntRange(0, 2).Draw(t, "tail")
 	for i := 0; i < n; i++ {
-		ops = append(ops, verifC16GenOp(t))
+		ops = append(ops, verifC16GenLocal(t))
 	}
 	return cfg, ops
 }
@@ -224,10 +248,10 @@ func verifC16Enumerate(f verifkit.F, c *verifkit.Case, rec *verifkit.Rec, cfg ve
 func TestVerifC16Enumerate(t *testing.T) {
 	rec := verifkit.For("C16")
 	defer rec.Flush()
-	maxOps := verifkit.EnvInt("VERIF_C16_MAXOPS", 12)
+	maxRounds := verifkit.EnvInt("VERIF_C16_ROUNDS", 4)
 	rapid.Check(t, func(t *rapid.T) {
 		c := rec.NewCase()
-		cfg, ops := verifC16GenScenario(t, maxOps)
+		cfg, ops := verifC16GenScenario(t, maxRounds)
 		verifC16Record(c, cfg, ops)
 		c.Label("mode=single-fault-enumeration")
 		verifC16Enumerate(t, c, rec, cfg, ops)
@@ -240,10 +264,10 @@ func TestVerifC16Enumerate(t *testing.T) {
 func TestVerifC16Multi(t *testing.T) {
 	rec := verifkit.For("C16")
 	defer rec.Flush()
-	maxOps := verifkit.EnvInt("VERIF_C16_MAXOPS_MULTI", 16)
+	maxRounds := verifkit.EnvInt("VERIF_C16_ROUNDS_MULTI", 5)
 	plans := verifkit.EnvInt("VERIF_C16_PLANS", 6)
 	rapid.Check(t, func(t *rapid.T) {
-		cfg, ops := verifC16GenScenario(t, maxOps)
+		cfg, ops := verifC16GenScenario(t, maxRounds)
 		// learn the RPCs (this fault-free run is itself checked by the oracle)
 		c0 := rec.NewCase()
 		verifC16Record(c0, cfg, ops)
@@ -264,6 +288,23 @@ func TestVerifC16Multi(t *testing.T) {
 		for _, id := range verifC16ChkIDs {
 			ents = append(ents, "chk:"+id)
 		}
+		// entities RPCs of the fault-free run carried (in first-seen order: deterministic up to the State's map order,
+		// which only permutes this list)
+		var seenEnts []string
+		{
+			seen := map[string]bool{}
+			for si := 0; si < nsync; si++ {
+				for _, call := range base.syncCalls[si] {
+					for _, e := range call.Ents {
+						if !seen[e] {
+							seen[e] = true
+							seenEnts = append(seenEnts, e)
+						}
+					}
+				}
+			}
+			sort.Strings(seenEnts)
+		}
 		kinds := append(append([]string{}, verifC16Kinds...), "nomethod")
 		for p := 0; p < plans; p++ {
 			c := rec.NewCase()
@@ -277,7 +318,11 @@ func TestVerifC16Multi(t *testing.T) {
 					d := rapid.SampledFrom(descs).Draw(t, "rpc")
 					r.Sync, r.Desc, r.Occ = d.Sync, d.Desc, d.Occ
 				} else {
-					r.Ent = rapid.SampledFrom(ents).Draw(t, "ent")
+					if len(seenEnts) > 0 && rapid.IntRange(0, 3).Draw(t, "seenEnt") > 0 {
+						r.Ent = rapid.SampledFrom(seenEnts).Draw(t, "ent")
+					} else {
+						r.Ent = rapid.SampledFrom(ents).Draw(t, "ent")
+					}
 					r.Sync = -1
 					if nsync > 0 && rapid.Bool().Draw(t, "oneSync") {
 						r.Sync = rapid.IntRange(0, nsync-1).Draw(t, "sync")
